@@ -13,7 +13,7 @@ ASSUMPTIONS = ["the THEOREMS start from compact files (what Tdf.new and BTS soft
                "unused slots of start files point at or beyond the end of all live data (a slot pointing INTO live data makes the first add overwrite it: C09 defines that convention)",
                "blocks satisfy C02 (declared size = bytes written)"]
 STYLES = ["fresh", "n1", "n2", "n3", "n5", "n14", "n14"]       # compact start files (C09 needs these)
-STYLES_WF = STYLES + ["gappy"]      # + well-formed files that are NOT compact: junk between and after the blocks (foreign software)
+STYLES_WF = STYLES + ["gappy", "permuted"]      # + well-formed files that are NOT compact: junk between and after the blocks (foreign software)
 
 
 def judge(ctx, r):
